@@ -13,13 +13,16 @@ for p in sorted(glob.glob(os.path.join(ROOT, "seeded", "*", "meta.json"))):
     ok = m.get("confirmed", {})
     conf = "yes" if all(ok.values()) else "NO: " + ",".join(k for k, v in ok.items() if not v)
     checks = "; ".join("%s: %s" % kv for kv in sorted(m.get("checks", {}).items()))
-    rows.append("| `%s` | %s | %s | %s | %s |" % (name, (m.get("breaks") or "").replace("|", "/")[:260], (m.get("needs") or "").replace("|", "/")[:200], conf, checks))
+    cur = m.get("checks_current")
+    cur = "; ".join("%s: %s" % kv for kv in sorted(cur.items())) if isinstance(cur, dict) else (cur or "")
+    rows.append("| `%s` | %s | %s | %s | %s | %s |" % (name, (m.get("breaks") or "").replace("|", "/")[:260], (m.get("needs") or "").replace("|", "/")[:200], conf, checks, cur))
 out = [d.rstrip("\n"), "", marker.strip("\n"), "",
        "Each change was written by a fresh sub-agent that saw only the property text and a scratch worktree of the library (nothing from /verif). "
        "`confirmed` = I re-ran it: the demonstration passes on the clean tree, the 105 unit tests still pass with the change, the demonstration fails with it. "
        "`caught` = the quick check printed a VIOLATION line with a failing input; `caught-no-input` = VIOLATION ... no-failing-input-found (a proof or correspondence "
-       "channel broke but the property predicate found no input in that run); `MISSED` entries are kept as recorded history — the later row for the same change shows the "
-       "result after the check was strengthened (see notes).", "",
-       "| change | what it breaks | needs | confirmed | checks |", "|---|---|---|---|---|"] + rows
+       "channel broke but the property predicate found no input in that run); `MISSED` entries in the column `first run` are kept as recorded history; the column `re-run` is the result of running the "
+       "checks against the same change again after the checks were strengthened and the library repaired (empty = not re-run; `patch-does-not-apply-after-fixes` = a later "
+       "`fix:` commit rewrote the lines the change touches).", "",
+       "| change | what it breaks | needs | confirmed | first run | re-run |", "|---|---|---|---|---|---|"] + rows
 open(os.path.join(ROOT, "DESIGN.md"), "w").write("\n".join(out) + "\n")
 print("DESIGN.md section 11:", len(rows), "seeded changes")
